@@ -151,4 +151,6 @@ def run(chk):
                 "rich policies x hostile requests x configurations), every second case with a cache (cold + hit), each run "
                 "with recording sinks and again with raising sinks. non-trivial = a rule id is reported; distinct = "
                 "distinct (policy, request, configuration)")
+    chk.assumptions = ["single top-level policies name their algorithm (the compiler's default differs: open finding F12, judged by C17)",
+                       "the relationship checker and role resolver answer as functions of their arguments within one case"]
     check_cases(chk, corpus_cases() + gen_cases(chk))
